@@ -127,7 +127,9 @@ func TestGovcBounded(t *testing.T) {
 	// outside the alphabet: numbers beyond float64, NUL bytes, control characters in strings and escapes
 	bs := string(rune(92))
 	for _, d := range []string{"1e400", "[1E999]", "-1e-400", "[-1e400,1]", `{"a":1e999}`, "1\x00", "1\x00x", "[1]\x00", "\x00", "[\x001]", "\"\x1f\"", "\"\x00\"", "[\"a\x01\"]", "{\"k\x02\":1}", "{\"k\":{\"a\x03\":1}}",
-		"[\"" + bs + "u00\x1f1\"]", "\"" + bs + "u00zz\"", "\"" + bs + "uD800" + bs + "u00zz\"", "{\"" + bs + "u00g1\":1}", "\"\x7f\"", "\"\t\"", "[\"\n\"]"} {
+		"[\"" + bs + "u00\x1f1\"]", "\"" + bs + "u00zz\"", "\"" + bs + "uD800" + bs + "u00zz\"", "{\"" + bs + "u00g1\":1}", "\"\x7f\"", "\"\t\"", "[\"\n\"]",
+		`{null:1}`, `{"a":1,null:2}`, `{ null : 1 }`, `[{null:1}]`, `{1:2}`, `{true:1}`, `{[]:1}`, `{{}:1}`, `{"zq":1,null:2}`, "\"" + bs + "ud800" + bs + "udc0g\"", "\"" + bs + "ud800" + bs + "udcZZ\"", "{\"" + bs + "ud800" + bs + "udc0g\":1}",
+		"[1,]", `{"unknown":[1,2,]}`, `{"unknown":{"a":[null,]}}`, `{"zq":1,"u":[ "x" , ]}`} {
 		check([]byte(d))
 	}
 	var ks []string
